@@ -242,3 +242,25 @@ def macro_values(prog):
                 m.setdefault(en['name'], set()).add((en['v'], e['file']))
         prog._macro_values = m
     return prog._macro_values
+
+
+def helper_values(prog, fn, cenv):
+    """cenv extended by the results of the file-local free helper functions fn calls, where the same finite-domain assignment decides them (one value on every path,
+    no recorded effect).  Lets a finite-domain rule survive the extraction of a condition into a static helper."""
+    out = dict(cenv)
+    for c in calls(fn['body']):
+        q = c.get('callee')
+        if not q or '::' in q:
+            continue
+        gs = prog.fns(q)
+        if len(gs) != 1 or gs[0].get('class') or gs[0]['file'] != fn['file'] or gs[0] is fn:
+            continue
+        g = gs[0]
+        o = Outcomes(g, prog, cenv=cenv, record_calls=None)
+        o.CAP = 64
+        o.LOOP_ROUNDS = 1
+        o.go()
+        vals = {oc['retv'] for oc in o.outcomes}
+        if len(vals) == 1 and None not in vals and not any(oc['events'] for oc in o.outcomes):
+            out[re.compile(r'%s(@\d+)?\(.*\)' % re.escape(q))] = vals.pop()
+    return out
